@@ -3,7 +3,7 @@
    Tables.v on this run, with grace period g (the source's value is grace_ns). *)
 From Coq Require Import List NArith ZArith Bool.
 From FwdLib Require Import Bytes.
-From G03 Require Import Tables Tunnel TunnelProofs Abstract ReplyReader Check OracleProofs Obligations.
+From G03 Require Import Tables Tunnel TunnelProofs Abstract ReplyReader Deadlines Check OracleProofs Obligations.
 Import ListNotations.
 Open Scope N_scope.
 
@@ -11,7 +11,7 @@ Open Scope N_scope.
    a prefix of the early bytes followed by everything the source wrote — no
    loss, no duplication, no reordering, early data first. *)
 Theorem T03_prefix : forall g e k tr s d, (0 <= g)%Z ->
-  steps (tables_shape g) (init e [] k) tr s ->
+  steps (tables_shape g) (init e [] k None None) tr s ->
   prefix_of (d_rcv (get d s)) (early_of e k d ++ writes d tr).
 Proof. exact (fun g e k tr s d Hg H => prefix_thm _ (shape_ok_tables g Hg) e k tr s H d). Qed.
 Print Assumptions T03_prefix.
@@ -19,7 +19,7 @@ Print Assumptions T03_prefix.
 (* ... more precisely every byte is accounted for: received ++ in flight (at most
    the copy buffer) ++ still buffered at switch-over ++ still in the source's socket. *)
 Theorem T03_conservation : forall g e k tr s d, (0 <= g)%Z ->
-  steps (tables_shape g) (init e [] k) tr s ->
+  steps (tables_shape g) (init e [] k None None) tr s ->
   (exists lost, early_of e k d ++ writes d tr =
      d_rcv (get d s) ++ lost ++ d_buf (get d s) ++ d_pre (get d s) ++ d_src (get d s) /\
      (s_forced s = false -> lost = []))
@@ -34,7 +34,7 @@ Print Assumptions T03_conservation.
    has been delivered completely and its sink has been shown end-of-stream —
    whatever the other direction is doing (unless the forced close fired). *)
 Theorem T03_complete : forall g e k tr s d, (0 <= g)%Z ->
-  steps (tables_shape g) (init e [] k) tr s ->
+  steps (tables_shape g) (init e [] k None None) tr s ->
   quiet (tables_shape g) s -> s_forced s = false -> d_wcl (get d s) = true ->
   d_rcv (get d s) = early_of e k d ++ writes d tr /\ d_eof (get d s) = true.
 Proof. exact (fun g e k tr s d Hg H => complete _ (shape_ok_tables g Hg) e k tr s H d). Qed.
@@ -42,7 +42,7 @@ Print Assumptions T03_complete.
 
 (* End-of-stream reaches a sink only after the source shut down and after every byte. *)
 Theorem T03_half_close_eof_last : forall g e k tr s d, (0 <= g)%Z ->
-  steps (tables_shape g) (init e [] k) tr s ->
+  steps (tables_shape g) (init e [] k None None) tr s ->
   s_forced s = false -> d_eof (get d s) = true ->
   d_rcv (get d s) = early_of e k d ++ writes d tr /\ d_wcl (get d s) = true.
 Proof. exact (fun g e k tr s d Hg H => eof_after_all _ (shape_ok_tables g Hg) e k tr s H d). Qed.
@@ -78,7 +78,7 @@ Print Assumptions T03_proxy_quiesces.
 
 (* When both endpoints have shut down and the proxy has nothing left to do, both connections are closed. *)
 Theorem T03_both_closed : forall g e k tr s, (0 <= g)%Z ->
-  steps (tables_shape g) (init e [] k) tr s ->
+  steps (tables_shape g) (init e [] k None None) tr s ->
   quiet (tables_shape g) s -> d_wcl (s_ct s) = true -> d_wcl (s_tc s) = true ->
   s_up s = true /\ s_down s = true.
 Proof. exact (fun g e k tr s Hg H => both_closed _ (shape_ok_tables g Hg) e k tr s H). Qed.
@@ -87,16 +87,36 @@ Print Assumptions T03_both_closed.
 (* The only thing that ends a direction early is the forced close, and it cannot
    happen before the grace period since the first finished copier has elapsed. *)
 Theorem T03_forced_close_only_after_grace : forall g e k tr s, (0 <= g)%Z ->
-  steps (tables_shape g) (init e [] k) tr s -> s_forced s = true ->
+  steps (tables_shape g) (init e [] k None None) tr s -> s_forced s = true ->
   exists t0, s_first s = Some t0 /\ (t0 + g <= s_clock s)%Z.
 Proof. exact (fun g e k tr s Hg H => forced_after_grace _ (shape_ok_tables g Hg) e k tr s H). Qed.
 Print Assumptions T03_forced_close_only_after_grace.
 
+(* No deadline armed on the client connection before the tunnel survives into it: for every
+   configuration of the idle / read / read-header / write timeouts, every reading of the clock and
+   every history of earlier exchanges on the connection, after the deadline statements of the
+   hand-over (as extracted into Tables.v on this run) both deadlines are cleared.  This is what
+   the theorems above assume by starting from `init e [] k None None`; the copy phase contains no
+   deadline statement (ob_copy_phase_sets_no_deadline), and no step of the LTS changes them. *)
+Theorem T03_no_deadline_survives : forall (c : timeouts) ops prior times,
+  handover_ops = Some ops -> length times = length ops ->
+  exec c (prior ++ combine ops times) (None, None) = (None, None).
+Proof. exact no_deadline_survives_tables. Qed.
+Print Assumptions T03_no_deadline_survives.
+
+(* The length abstraction used for large payloads is exactly the length image of the byte-level LTS. *)
+Theorem T03_abstract_is_length_image : forall sh a atr a',
+  arun sh a atr = Some a' <->
+  exists s tr s', steps sh s tr s' /\ abss s = a /\ map absl tr = atr /\ abss s' = a'.
+Proof. exact abstract_is_length_image. Qed.
+Print Assumptions T03_abstract_is_length_image.
+
 (* The run-time acceptance check means: the recorded trace is a run of the LTS. *)
-Theorem T03_accepts_sound : forall sh e o k tr, accepts sh e o k tr = true -> exists s, steps sh (init e o k) tr s.
+Theorem T03_accepts_sound : forall sh e o k r w tr,
+  accepts sh e o k r w tr = true -> exists s, steps sh (init e o k r w) tr s.
 Proof.
-  exact (fun sh e o k tr H =>
-    match run sh (init e o k) tr as r return run sh (init e o k) tr = r -> (match r with Some _ => true | None => false end) = true -> _ with
+  exact (fun sh e o k r w tr H =>
+    match run sh (init e o k r w) tr as r0 return run sh (init e o k r w) tr = r0 -> (match r0 with Some _ => true | None => false end) = true -> _ with
     | Some s => fun E _ => ex_intro _ s (proj1 (run_steps sh _ tr s) E)
     | None => fun _ F => False_ind _ (Bool.diff_false_true F)
     end eq_refl H).
@@ -106,7 +126,7 @@ Print Assumptions T03_accepts_sound.
 (* Every run accepted by the length abstraction is the length image of a run of
    the byte-level LTS, and the invariants hold of its counters. *)
 Theorem T03_abstract_counts : forall g e k tr s d, (0 <= g)%Z ->
-  arun (tables_shape g) (ainit e 0 k) tr = Some s ->
+  arun (tables_shape g) (ainit e 0 k None None) tr = Some s ->
   n_rcv (aget d s) <= early_ofN e k d + awrites d tr
   /\ n_buf (aget d s) <= copy_buf_size
   /\ (as_forced s = false ->
@@ -126,7 +146,7 @@ Print Assumptions T03_oracle_sound.
    from the observed switch-over state. *)
 Theorem T03_correspondence_is_trace_inclusion : forall c, cmodel_ok c = true ->
   exists tr s, cc_trace c = Some tr /\
-               steps (tables_shape (cc_grace c)) (init (cc_early c) (cc_skip c) (cc_kept c)) tr s.
+               steps (tables_shape (cc_grace c)) (cinit c) tr s.
 Proof. exact cmodel_ok_run. Qed.
 Print Assumptions T03_correspondence_is_trace_inclusion.
 
